@@ -352,16 +352,19 @@ def run_rule(ctx, rid, cache=None, views=True):
                 R = R2
                 remaining = None
                 break
-            # obligation by obligation: a violation reported for a function on the program as written is discharged by a view in which
-            # that same function (now containing its helpers' code) still exists, the rule found its anchors, and the rule does not
-            # report that obligation; the view's own reports about functions the rule accepted as written are discharged the same way
+            # function by function: what the rule reports about a function on the program as written is discharged by a view in which
+            # that same function (now containing its helpers' code) still exists, the rule found its anchors, and the rule reports
+            # nothing at all about that function; what the view reports about *other* functions, which the rule accepted as written,
+            # is discharged by the program as written in the same way
             if any(v.key.startswith("ANCHOR:") for v in R2.violations):
                 continue
-            k2 = {v.key for v in R2.violations}
+            b2 = {_body_of_key(c2, v.key) for v in R2.violations}
+            if None in b2:
+                continue          # the view reports something that is not tied to one function: no function-wise comparison
             keep = []
             for v in remaining:
                 bp = _body_of_key(ctx, v.key)
-                if not v.key.startswith("ANCHOR:") and v.key not in k2 and bp is not None and bp in c2.facts.bodies:
+                if not v.key.startswith("ANCHOR:") and bp is not None and bp in c2.facts.bodies and bp not in b2:
                     discharged.append((v.key, policy))
                 else:
                     keep.append(v)
